@@ -78,9 +78,49 @@ pub fn apply(cw: &[u8], e: &[(usize, u8)]) -> Vec<u8> {
 /// add to block b of `cw` an error polynomial that has 2^1..2^j among its roots, so that the first
 /// j syndromes of the received block vanish while the word is (almost surely) not a codeword
 pub fn add_vanishing(rng: &mut Rng, r: &Row, cw: &mut [u8], b: usize, j: usize, qdeg: usize) {
+    let roots: Vec<usize> = (1..=j).collect();
+    add_with_roots(rng, r, cw, b, &roots, qdeg)
+}
+
+/// random subset of the syndrome indices 1..=k; biased to "all but a few"
+pub fn random_root_set(rng: &mut Rng, k: usize) -> Vec<usize> {
+    match rng.below(4) {
+        0 => (1..=k).filter(|_| rng.chance(1, 2)).collect(),
+        1 => {
+            // all but one
+            let skip = rng.range(1, k);
+            (1..=k).filter(|i| *i != skip).collect()
+        }
+        2 => {
+            // all but two
+            let (a, b) = (rng.range(1, k), rng.range(1, k));
+            (1..=k).filter(|i| *i != a && *i != b).collect()
+        }
+        _ => {
+            // a window
+            let a = rng.range(1, k);
+            let b = rng.range(a, k);
+            (a..=b).collect()
+        }
+    }
+}
+
+/// add to block b an error polynomial that vanishes at 2^i for every i in `roots`, so that
+/// exactly (at least) those syndromes S_i of the received block are zero
+pub fn add_with_roots(rng: &mut Rng, r: &Row, cw: &mut [u8], b: usize, roots: &[usize], qdeg: usize) {
     let pos = r.block_positions(b);
     let n = pos.len();
-    let g = gf::generator(j); // prod_{i<=j} (x - 2^i), highest first, len j+1
+    let j = roots.len();
+    let mut g = vec![1u8];
+    for i in roots {
+        let root = gf::pow2(*i);
+        let mut nx = vec![0u8; g.len() + 1];
+        for (d, c) in g.iter().enumerate() {
+            nx[d] ^= *c;
+            nx[d + 1] ^= gf::mul(*c, root);
+        }
+        g = nx;
+    }
     let qlen = (qdeg + 1).min(n.saturating_sub(j)).max(1);
     let mut q: Vec<u8> = (0..qlen).map(|_| rng.byte()).collect();
     if q[0] == 0 {
